@@ -274,7 +274,7 @@ func runP3(p *an.Prog, r *an.Result) {
 				return
 			}
 			for _, g := range an.GuardsAtInstr(ta) {
-				if g.True && an.IsCallTo(g.Cond, "expressions.isClosureInterfaceType") && noClosureParams {
+				if g.True && impliesClosureType(p, g.Cond, 0) && noClosureParams {
 					r.OK(name, construct, ta.Pos(), "dead: control-dependent on isClosureInterfaceType(param type), false for every registered filter signature (rule F4)")
 					return
 				}
